@@ -42,6 +42,14 @@
 #include <unifex/with_allocator.hpp>
 #include <unifex/with_query_value.hpp>
 #include <unifex/blocking.hpp>
+#include <unifex/allocate.hpp>
+#include <unifex/defer.hpp>
+#include <unifex/just_from.hpp>
+#include <unifex/just_void_or_done.hpp>
+#include <unifex/let_value_with.hpp>
+#include <unifex/let_value_with_stop_source.hpp>
+#include <unifex/let_value_with_stop_token.hpp>
+#include <unifex/variant_sender.hpp>
 
 #include <deque>
 #include <optional>
@@ -100,6 +108,7 @@ struct World {
   long copyCount = 0, copyThrowAt = 0;       // fault injection: k-th Val copy throws
   bool rootDestroysOp = true;
   std::function<void()> destroyOp;
+  std::map<int, std::function<void()>> innerStop;   // let_value_with_stop_source: request stop on the handed-out source
   void call(int q, Payload p) {
     vrt::ev("{\"e\":\"Fn\",\"q\":%d}", q);
     fn.push_back({q, std::move(p)});
@@ -318,6 +327,12 @@ template <bool Void> struct LeafT : LeafVals<Void> {
 using Leaf = LeafT<false>;
 using LeafV = LeafT<true>;
 
+inline std::exception_ptr mkerr(int id) { return std::make_exception_ptr(Tagged{{id}}); }
+template <class F1, class F2>
+auto make_variant(bool first, F1 f1, F2 f2) -> unifex::variant_sender<std::invoke_result_t<F1>, std::invoke_result_t<F2>> {
+  if (first) return f1();
+  return f2();
+}
 template <class S> auto AnyVal(S&& s) { return unifex::any_sender_of<Val>((S&&)s); }
 template <class S> auto AnyVoid(S&& s) { return unifex::any_sender_of<>((S&&)s); }
 
